@@ -151,11 +151,17 @@ def judge_table(table, newick, rec, mutname, samples, tree, label, clustered):
                     probs.append(("ccf_infeasible", "sample %d: top-level clones' ccf sum to %s" % (si, sum(top))))
         except outputs.OutputError:
             pass
-    # CCF / clonal prevalence columns (clones matched by the data they own: files may number clones differently)
+    # CCF / clonal prevalence columns.  Several assignments can be jointly optimal (ties), and a command may have rebuilt
+    # the tree with another child order, so values are not compared one by one: the table's assignment must be on the
+    # grid, -1 for outliers, identical for all mutations of a clone, and score exactly what the MAP function scores on
+    # this tree (clones matched by the data they own).
     if tree is not None:
         ccfs, prev = get_map_node_ccfs_and_clonal_prev_dicts(tree)
         _, conc = absstate.project(tree, full=False)
         node_of_own = {frozenset(v): n_ for n_, v in conc["dat"].items()}
+        G = tree.grid_size[1]
+        by_data = {dp.idx: dp for dp in tree.data}
+        per_clone = {}
         for k, row in clone_id_of_row.items():
             cid = int(row["clone_id"])
             si = k[1] - 1
@@ -164,14 +170,33 @@ def judge_table(table, newick, rec, mutname, samples, tree, label, clustered):
                 if ccf != -1 or cp != -1:
                     probs.append(("outlier_ccf", "outlier row has ccf %s / clonal_prev %s, expected -1" % (ccf, cp)))
                 continue
+            if not (-1e-12 <= ccf <= 1 + 1e-12) or not (-1e-12 <= cp <= 1 + 1e-12):
+                probs.append(("ccf_range", "ccf %s / clonal_prev %s outside [0, 1]" % (ccf, cp)))
+            if abs(ccf * (G - 1) - round(ccf * (G - 1))) > 1e-9:
+                probs.append(("ccf_grid", "ccf %s is not a grid point" % ccf))
             own = want.get(k)
             if own is None or own not in node_of_own:
                 continue
-            nd = node_of_own[own]
-            if abs(ccf - float(ccfs[nd][si])) > 1e-12 or abs(cp - float(prev[nd][si])) > 1e-12:
-                probs.append(("ccf", "row of clone %s sample %d has ccf %s prev %s, the clone's values are %s / %s" % (cid, si + 1, ccf, cp, ccfs[nd][si], prev[nd][si])))
-            if not (-1e-12 <= ccf <= 1 + 1e-12) or not (-1e-12 <= cp <= 1 + 1e-12):
-                probs.append(("ccf_range", "ccf %s / clonal_prev %s outside [0, 1]" % (ccf, cp)))
+            prevv = per_clone.setdefault((own, si), (ccf, cp))
+            if prevv != (ccf, cp):
+                probs.append(("ccf", "mutations of one clone carry different ccf / clonal_prev in sample %d: %s vs %s" % (si + 1, prevv, (ccf, cp))))
+        samples_n = len(samples)
+        for si in range(samples_n):
+            tab_score = ref_score = 0.0
+            complete = True
+            for own, nd in node_of_own.items():
+                if not own:
+                    continue
+                if (own, si) not in per_clone:
+                    complete = False
+                    break
+                ti = int(round(per_clone[(own, si)][0] * (G - 1)))
+                ri = int(round(float(ccfs[nd][si]) * (G - 1)))
+                for d_ in own:
+                    tab_score += float(by_data[d_].value[si, ti])
+                    ref_score += float(by_data[d_].value[si, ri])
+            if complete and abs(tab_score - ref_score) > 1e-9 * (1 + abs(ref_score)):
+                probs.append(("ccf", "sample %d: the table's CCFs score %.12g, the MAP CCFs of this tree score %.12g" % (si + 1, tab_score, ref_score)))
     return [("C12|%s|%s" % (label, k), m) for k, m in probs]
 
 
